@@ -433,7 +433,7 @@ func TestC08Loopback(t *testing.T) {
 	hx.Check(t, hx.Scale(300, 5000), func(t *rapid.T) {
 		s := genScenario(t)
 		s.peerIP = "127.0.0.1"
-		s.upgrade = rapid.SampledFrom([]string{"", "", "websocket", "Websocket"}).Draw(t, "upgrade")
+		s.upgrade = rapid.SampledFrom([]string{"", "", "websocket", "Websocket", "WebSocket", "WEBSOCKET", "webSocket"}).Draw(t, "upgrade")
 		opts := map[string]string{}
 		if s.hostOpt != "" {
 			opts["host"] = s.hostOpt
